@@ -358,4 +358,31 @@ class C07e(Obligation):
                       'exactly the last (indentation) line is dropped; all other bytes, line endings included, are kept')
 
 
-OBLIGATIONS = [C07a, C07b, C07c, C07d, C07e]
+class C07f(Obligation):
+    id = 'C07.f'
+    title = 'extract: the indentation re-used for the rewritten statement is the REAL indentation text of the line (tabs stay tabs)'
+    pattern = 'P1 (extract._get_indentation over a symbolic prefix; the column is the length of the indentation)'
+    assumptions = (
+        'the prefix of the node is K<=3 split_lines-shaped lines; the last one is the indentation: a symbolic string over '
+        '{space, tab} of length<=4 (no line break); the column of the node is its length (tabs count 1, as parso counts)',
+    )
+
+    def configs(self, tier):
+        return [dict(K=k) for k in (1, 2, 3)]
+
+    def scenario(self, ctx, cfg):
+        before = code_lines_named(ctx, cfg['K'], 4, 'above')[:-1]
+        indent = ctx.str('indentation', maxlen=4, alphabet=' \t')
+        lines = before + [indent]
+        prefix = _join(lines)
+        ctx.patch(X, 'split_lines', lambda text, keepends=False: list(lines))
+        leaf = Obj(prefix=prefix, value='stmt')
+        node = Obj(get_first_leaf=lambda: leaf, start_pos=(len(lines), ctx.len(indent)), type='expr_stmt')
+        ctx.force(X._get_indentation)
+        out = ctx.call(X._get_indentation, node)
+        ctx.check(out.exc is None, 'never raises')
+        if out.exc is None:
+            ctx.check(out.value == indent, 'the indentation text is taken over byte for byte')
+
+
+OBLIGATIONS = [C07a, C07b, C07c, C07d, C07e, C07f]
